@@ -167,6 +167,14 @@ class SpawnOnStr:
         return 'gate'
 
 
+MIDFRAME_PROG = {'files': [{'path': '/app/pkg/mod_a.py', 'src': True}],
+                 'funcs': [{'name': 'f0', 'file': 0, 'kind': 'func', 'nparams': 1,
+                            'body': [['set', 'a', '0'],
+                                     ['loop', 'i', 3, [['if', 'i == 1', [['mark', 'V[0]()']], []],
+                                                       ['set', 'a', 'a + i']]],
+                                     ['ret', 'a']]}]}
+
+
 OVERLAP_PROG = {'files': [{'path': '/app/pkg/mod_a.py', 'src': True}],
                 'funcs': [{'name': 'f0', 'file': 0, 'kind': 'func', 'nparams': 1,
                            'body': [['hold', 'h1', 0], ['mark', 'n'], ['ret', 'n']]},
@@ -231,7 +239,45 @@ class C03(Prop):
             'extra_a': st.sampled_from([None, 'log', 'metric']),
             'route': st.sampled_from(['triggers', 'response']),
         })
-        return st.one_of(general, general, general, general, general, general, overlap)
+        midframe = fd({'mode': st.just('midframe'),
+                       'prior': st.sampled_from(['empty', 'other_file', 'same_file_other_line', 'other_file']),
+                       'action': st.sampled_from(ACTIONS), 'route': st.sampled_from(['triggers', 'response'])})
+        return st.one_of(general, general, general, general, general, general, overlap, midframe)
+
+    def run_midframe(self, recipe):
+        """The service adds a tracepoint to a function that is already running (a long-lived loop): the new tracepoint
+        must act when that invocation reaches its line."""
+        out = Outcome()
+        out.cls('tracepoint_added_to_a_running_function')
+        out.nontrivial = True
+        lab.reset_world()
+        rendered = progs.render(MIDFRAME_PROG)
+        line_new = [st_ for st_ in rendered.stmts if st_['kind'] == 'set' and st_['line'] > rendered.stmts[0]['line']][-1]['line']
+        line_first = rendered.stmts[0]['line']
+        new_tp = {'id': 'tp9', 'kind': 'line', 'path': 'mod_a.py', 'line': line_new, 'name': None,
+                  'action': recipe['action']}
+        prior = []
+        if recipe['prior'] == 'other_file':
+            prior = [{'id': 'tp1', 'kind': 'line', 'path': 'elsewhere.py', 'line': 3, 'name': None, 'action': 'snapshot'}]
+        elif recipe['prior'] == 'same_file_other_line':
+            prior = [{'id': 'tp1', 'kind': 'line', 'path': 'mod_a.py', 'line': line_first, 'name': None, 'action': 'log'}]
+        rec = Recorders()
+        handler, cfg, _ = lab.make_handler(install(prior, recipe['route']), plugins=rec.plugins(), push=rec.push)
+
+        def add_tracepoint():
+            handler.new_config(install(prior + [new_tp], recipe['route']))
+        ip = probe.Interposer(handler.trace_call)
+        rec.mark()
+        progs.run_program(MIDFRAME_PROG, rendered, tracer=ip.trace, values=[add_tracepoint])
+        got = [a for a in rec.since_mark() if a[0] == 'tp9']
+        exp = actions_of(new_tp) * 2          # the line is reached twice after the tracepoint was added
+        if sorted(got) != sorted(exp):
+            out.violate('a tracepoint added while its function was already running does not act in that invocation '
+                        '(configuration at the time the frame was entered: %s)' % (
+                            'empty' if recipe['prior'] == 'empty' else 'not empty'),
+                        {'expected': exp, 'got': got, 'prior': recipe['prior']})
+        lab.reset_world()
+        return out
 
     def run_overlap(self, recipe):
         """Two threads overlap: B's whole hit happens while A's hit is inside collection (harness-owned schedule)."""
@@ -279,6 +325,8 @@ class C03(Prop):
     def run_case(self, recipe):
         if recipe.get('mode') == 'overlap':
             return self.run_overlap(recipe)
+        if recipe.get('mode') == 'midframe':
+            return self.run_midframe(recipe)
         out = Outcome()
         lab.reset_world()
         rendered = progs.render(recipe['prog'])
